@@ -541,6 +541,10 @@ pub fn run(ctx: &mut Ctx) {
         if ctx.out_of_time() {
             break;
         }
-        run_case(ctx, idx);
+        if idx % 5 == 4 {
+            crate::mon_c17_aux::run_case(ctx, idx);
+        } else {
+            run_case(ctx, idx);
+        }
     }
 }
